@@ -56,6 +56,8 @@ SCALARS = {
     # non-integers that are within rounding distance of an integer (e.g. (1-0.9)*10): still non-integer exponents
     '1.999999999999': 1.999999999999, '0.9999999999999998': 0.9999999999999998, '3.0000000000000004': 3.0000000000000004,
     '-1.0000000000001': -1.0000000000001, '1e-12': 1e-12,
+    # non-zero numbers of very small magnitude are still non-zero
+    '1e-13': 1e-13, '-3e-13': -3e-13, '5e-324': 5e-324, '2e-14j': 2e-14j, '5.551115123125783e-17': 0.1 + 0.2 - 0.3,
 }
 
 
@@ -392,7 +394,8 @@ class ArrArr(BinopFamily):
                             yield (op, form, spec_arr(sa, ka), spec_arr(sb, kb))
 
 
-SC_ADD = ['0', '0.0', '-0.0', '0j', '2', '-1.5', '1+2j', '0.5', '1e-09', '1e-09j']
+SC_ADD = ['0', '0.0', '-0.0', '0j', '2', '-1.5', '1+2j', '0.5', '1e-09', '1e-09j', '1e-13', '-3e-13', '5e-324', '2e-14j',
+          '5.551115123125783e-17']
 SC_MUL = ['0', '1', '2', '-1.5', '1+2j', '0.5']
 SC_DIV = ['1', '2', '-1.5', '1+2j', '0.5']
 SC_BASE = ['0', '1', '2', '-1.5', '1+2j']
@@ -815,9 +818,10 @@ class GraderNegPow(Family):
                     for shape_in in ('A^', 'lit^', 'A*A^'):
                         for i in range(len(self.GTEXTS)):
                             yield (b, flag, sup, shape_in, i)
+                            yield (b, flag, sup, shape_in, i, 'dependent-sampler')
 
     def formula(self, case):
-        b, flag, sup, shape_in, i = case
+        b, flag, sup, shape_in, i = case[:5]
         text = self.GTEXTS[i][0]
         if shape_in == 'lit^':
             return '%s^%s' % (lit(decode(b)), text)
@@ -825,10 +829,17 @@ class GraderNegPow(Family):
 
     def describe(self, case):
         return {'student_input': self.formula(case), 'A': decode(case[0]), 'negative_powers': case[1],
-                'suppress_matrix_messages': bool(case[2])}
+                'suppress_matrix_messages': bool(case[2]),
+                'other variables': ('t, u with u = DependentSampler(t^2)'
+                                    if len(case) > 5 else 'none')}
 
     def check(self, case):
-        b, flag, sup, shape_in, i = case
+        b, flag, sup, shape_in, i = case[:5]
+        extra = {}
+        if len(case) > 5:
+            # variables the student does not use, one of them computed by the author from others
+            from mitxgraders import DependentSampler
+            extra = dict(variables=['t', 'u'], sample_from={'u': DependentSampler(formula='t^2')})
         a = decode(b)
         k = self.GTEXTS[i][1]
         negpow = flag == 'on'
@@ -844,7 +855,7 @@ class GraderNegPow(Family):
 
         grader = Lib.MatrixGrader(answers={'comparer': recorder, 'comparer_params': ['1']},
                                   user_constants={'A': to_lib(a)}, negative_powers=negpow,
-                                  suppress_matrix_messages=bool(sup), max_array_dim=3, samples=1)
+                                  suppress_matrix_messages=bool(sup), max_array_dim=3, samples=1, **extra)
         text = self.formula(case)
         got = attempt(lambda: grader(None, text))
         site = 'grader:' + site_of('^', a, k) + ('' if negpow else ':disabled')
